@@ -11,7 +11,7 @@
      dropped before they reach update_file_hashes, as executor._run_hash_job does).
    - cone : steps downstream of a set of edited files. *)
 From Coq Require Import List NArith Bool.
-From SV Require Import lib.Bytes model.Graph model.GraphDump.
+From SV Require Import lib.Bytes lib.Closure model.Graph model.GraphDump.
 Import ListNotations.
 Open Scope N_scope.
 
@@ -22,22 +22,30 @@ Definition attached (k : key) (s : st) : bool := negb (is_detached k s).
 (* ------------------------------------------------------------------------------------------ *)
 
 (* _implied_need > OPTIONAL without targets (scheduler.UPDATE_CHECK_AFTER at its fixpoint):
-   the declared need, or an attached step two dependency hops downstream that is required.
-   The file in the middle may be in any state, attached or not. *)
-Fixpoint required_f (fuel : nat) (l : str) (s : st) : bool :=
-  match find_step l s with
-  | None => false
-  | Some r =>
-    negb (need_eqb (sneed r) NOptional) ||
-    match fuel with
-    | O => false
-    | S fuel' =>
-      existsb (fun f => existsb (fun c => attached (KStep, c) s && required_f fuel' c s)
-                                (step_sinks_of_file f s))
-              (file_sinks_of_step l s)
-    end
-  end.
-Definition required (l : str) (s : st) : bool := required_f (length (steps s)) l s.
+   a step is required when its declared need is above OPTIONAL, or when an attached step two
+   dependency hops downstream (step -> output file -> consuming step) is required.  The file in
+   the middle may be in any state, attached or not.
+   Stated as a reachability closure (lib/Closure.v, whose closure_spec makes it fuel free):
+   req_edges are the pairs (c, l) "the attached step c consumes an output of l"; the seeds are the
+   steps whose declared need is above OPTIONAL; a step with a row is required when it is reachable
+   from a seed. *)
+Definition req_edges (s : st) : list (str * str) :=
+  flat_map (fun d =>
+              match dsrc d, dsnk d with
+              | (KStep, l), (KFile, f) =>
+                map (fun c => (c, l))
+                    (filter (fun c => attached (KStep, c) s && is_some (find_step c s))
+                            (step_sinks_of_file f s))
+              | _, _ => []
+              end) (deps s).
+Definition need_seeds (s : st) : list str :=
+  filter (fun l => match find_step l s with
+                   | Some r => negb (need_eqb (sneed r) NOptional)
+                   | None => false end) (map sl (steps s)).
+Definition required_set (s : st) : list str :=
+  closure_from str_eqb (req_edges s) (length (req_edges s)) (need_seeds s).
+Definition required (l : str) (s : st) : bool :=
+  is_some (find_step l s) && mem_str l (required_set s).
 
 (* step.UNAVAILABLE_INPUT_WHERE for one dependency row whose source is a file *)
 Definition unavailable_input (d : dep) (s : st) : bool :=
@@ -102,6 +110,17 @@ Definition q_no_unconfirmed_b (s : st) : bool :=
           (files s).
 Definition quiescent_success_b (s : st) : bool :=
   q_no_job_b s && q_steps_b s && q_no_deletable_b s && q_no_unconfirmed_b s.
+
+(* The state at the end of a successful build phase, before finalize (what runner/report_unbuilt
+   look at): no job in flight, every declared static file confirmed, no attached step FAILED, no
+   attached required step PENDING (the pending universe is empty; in particular nothing satisfies
+   the dispatch guard). *)
+Definition eop_steps_b (s : st) : bool :=
+  forallb (fun r => is_detached (KStep, sl r) s ||
+                    (negb (sstate_eqb (sst r) SFailed) &&
+                     negb (sstate_eqb (sst r) SPending && required (sl r) s))) (steps s).
+Definition end_of_phase_b (s : st) : bool :=
+  q_no_job_b s && q_no_unconfirmed_b s && eop_steps_b s.
 
 (* ------------------------------------------------------------------------------------------ *)
 (* Startup and watch-phase transactions for given re-hash results                              *)
@@ -258,3 +277,10 @@ Definition run_xops (ops : list xop) (s : st) : st :=
   fold_left (fun s x => match step_xop x s with Ok s' => s' | _ => s end) ops s.
 Definition check_trace_x (cap : N) (tr : list (xop * outcome * dump)) : bool :=
   match first_bad_x 0 (init_st cap) tr with None => true | Some _ => false end.
+
+(* A history (transactions of Graph.v plus revert_optional_steps) that ends in a successful build:
+   the build phase ended successfully (end_of_phase_b), then finalize ran: revert_optional_steps,
+   delete_detached. *)
+Definition successful_history (cap : N) (hist : list xop) : Prop :=
+  exists pre, hist = pre ++ [XRevert; XOp OpDeleteDetached] /\
+              end_of_phase_b (run_xops pre (init_st cap)) = true.
